@@ -183,6 +183,15 @@ def gen_C01(rng, tier):
         L.append("q %s %s %s" % (op, q(rand_f(rng), m1, s1), q(rand_f(rng), m2, s2)))
         L.append("q %s U:%d,%d U:%d,%d" % (rng.choice(["add", "sub", "mul", "div", "mulas", "divas"]), m1, s1, m2, s2))
     L += i8_edge_cases(rng, n_of(tier, 300, 2000))
+    # "panics if and only if the units differ" — also where the operation runs inside a destructor during unwinding from another panic
+    for (m1, s1) in GRID[::5]:
+        for (m2, s2) in [(m1, s1)] + GRID[::11]:
+            for op in ("add", "sub", "addas", "subas", "cmp", "lt", "ge", "eq", "mul"):
+                L.append("q unw %s %s %s" % (op, q(rand_f(rng), m1, s1), q(rand_f(rng), m2, s2)))
+            L.append("q unw add U:%d,%d U:%d,%d" % (m1, s1, m2, s2))
+            L.append("q unw subas U:%d,%d U:%d,%d" % (m1, s1, m2, s2))
+        L.append("q unw add %s T:%d" % (q(rand_f(rng), m1, s1), rng.randint(-10 ** 9, 10 ** 9)))
+        L.append("q unw sub D:%d %s" % (rng.randint(-99, 99), q(rand_f(rng), m1, s1)))
     # special float values: bit-level comparison only
     for a in SPECIAL_F:
         for b in SPECIAL_F:
